@@ -50,15 +50,17 @@ def op_toks(o):
 
 def gen_profile_sweep(rng, i):
     """one thread, a populated manager, then one call of every kind: the lock profile of each call is observed"""
-    fam = (i // 3) % 5
-    pool = [(1, 1, 1), (2, 1, 2), (3, 2, 3), (4, 2, 5), (5, 1, 1), (6, 3, 7)]
+    j = i // 5                      # the sweep is taken by every fifth case: enumerate (family, kind) in turn
+    fam = j % 5
+    # pool[4] equals pool[0] (an append that finds the rule present), pool[3] is invalid, pool[6] is new and valid
+    pool = [(1, 1, 1), (2, 1, 2), (3, 2, 3), (4, 2, 5), (5, 1, 1), (6, 3, 7), (7, 2, 6)]
     setup = [("L", fam, [0, 1, 2, 5])]
     if fam != 4 and rng.chance(0.5):
         setup.append(("R", fam, 1, [0, 4]))
-    kinds = [("G", fam), ("L", fam, [1, 2]), ("P", fam, 4), ("C", fam), ("B", 1)] if fam == 4 else \
+    kinds = [("G", fam), ("L", fam, [1, 2]), ("P", fam, 4), ("P", fam, 6), ("C", fam), ("B", 1)] if fam == 4 else \
             [("G", fam), ("Q", fam, 1), ("L", fam, [1, 2]), ("R", fam, 1, [0]), ("R", fam, 2, []), ("P", fam, 4),
-             ("P", fam, 3), ("K", fam, 1), ("C", fam), ("B", 1), ("B", 2)]
-    k = (i * 7 + rng.randrange(len(kinds))) % len(kinds)
+             ("P", fam, 3), ("P", fam, 6), ("K", fam, 1), ("C", fam), ("B", 1), ("B", 2)]
+    k = (j // 5) % len(kinds)
     prog = [kinds[k], kinds[(k + 1) % len(kinds)]]
     return {"pool": pool, "setup": setup, "progs": [prog], "steps": []}
 
@@ -111,6 +113,12 @@ def gen_case(rng, i):
         nt = rng.pick([2, 2, 3])
         same_family = rng.chance(0.6)
         fam = rng.pick([0, 1, 2, 3])
+        if rng.chance(0.35):
+            # a breaker rule of a custom strategy: its generator (registered by the harness) calls back into
+            # read-only manager functions while the manager builds the breaker
+            k = rng.randrange(len(pool))
+            pool[k] = (pool[k][0], pool[k][1] or 1, 12)
+            fam = 2
         progs = []
         for t in range(nt):
             k = rng.pick([1, 2, 2, 3])
@@ -150,7 +158,9 @@ class C15(PropBase):
             "held at that moment) or 2-3 real threads making 1-3 calls each - load-all, load-for-resource, append, clear, "
             "clear-for-resource, get, get-for-resource over flow / hotspot / breaker / isolation / system (load-all, append, clear, get) managers (60% within "
             "one family) and inbound entry build+exit with an argument - under a forced interleaving of the scheduling "
-            "points placed before every lock acquisition (0-40 steps: round robin, random, runs; a thread that does not come "
+            "points placed before every lock acquisition; in a third of the concurrent cases one breaker rule has a custom strategy "
+            "whose generator calls back into read-only manager functions (get_rules, get_rules_of_resource) while the manager "
+            "builds the breaker (0-40 steps: round robin, random, runs; a thread that does not come "
             "back within 150 ms counts as blocked and is left alone); a fifth of the cases sweep every kind of call on a populated "
             "manager with one thread (profile), another fifth park one call at its k-th lock while a second call of the same "
             "family and resource runs to its end; another fifth trip a breaker (it opens at the first failed request), let its probe "
